@@ -265,6 +265,37 @@ pub fn softmax_targets_case(n: usize, nout: usize) -> Case {
     }
 }
 
+/// soft-max output, ties allowed: a sample scores iff `Tensor::argmax` (the library's own arg-max, whatever its tie rule)
+/// of the prediction equals that of the target. Bias-free layer: the zero input ties all outputs exactly.
+pub fn softmax_ties_case(nout: usize) -> Case {
+    Case {
+        id: format!("C12/validate/softmax-with-ties/{}out", nout),
+        property: "C12",
+        family: "Network::validate",
+        class: "validate-softmax".into(),
+        no_ties: false,
+        max_paths: 4096,
+        run: Box::new(move |ctx| {
+            let mut net = build_net(Shape::Single(1), &[L::Dense(nout, Act::Softmax, false)]);
+            symbolize(ctx, &mut net, "");
+            net.set_objective(Objective::CrossEntropy, None);
+            let n = nout;
+            let xs: Vec<Tensor> = (0..n).map(|i| t1(&v1(ctx, &format!("x{}", i), 1))).collect();
+            let tt: Vec<Tensor> = (0..n).map(|i| Tensor::one_hot(i % nout, nout)).collect();
+            let (xr, tr): (Vec<&Tensor>, Vec<&Tensor>) = (xs.iter().collect(), tt.iter().collect());
+            let (_, acc) = net.validate(&xr, &tr, lit(0.5));
+            let mut hits = 0usize;
+            for i in 0..n {
+                let p = net.predict(&xs[i]);
+                if t1(&elems(&p)).argmax() == tt[i].argmax() {
+                    hits += 1;
+                }
+            }
+            ctx.eq("accuracy", acc, lit(hits as f32) / lit(n as f32));
+        }),
+    }
+}
+
 /// single-output networks use the `target.len() == 1` branch of the accuracy rule
 pub fn validate_single_output_case(n: usize) -> Case {
     Case {
@@ -333,6 +364,10 @@ pub fn cases(tier: Tier, _seed: u64) -> Vec<Case> {
     }
     out.push(validate_case(2, Obj::CrossEntropy, Act::Softmax, true));
     out.push(validate_single_output_case(2));
+    out.push(softmax_ties_case(2));
+    if full {
+        out.push(softmax_ties_case(3));
+    }
     out.push(softmax_targets_case(1, 2));
     out.push(softmax_targets_case(if full { 2 } else { 1 }, 3));
     out.push(accuracy_float_case(1));
